@@ -247,7 +247,7 @@ def replay(ctx, case):
     check_case(ctx, case)
 
 
-SUBS = [Sub("write_spec_read", run, replay, quick=3000, thorough=60000),
-        Sub("huge_ids", run_huge, replay, quick=400, thorough=8000),
+SUBS = [Sub("write_spec_read", run, replay, quick=3000, thorough=480000),
+        Sub("huge_ids", run_huge, replay, quick=400, thorough=64000),
         Sub("info_replaced", run_info_history, replay, quick=300,
-            thorough=6000)]
+            thorough=48000)]
